@@ -460,6 +460,9 @@ def frame_clause(program, spec):
     if not isinstance(node, _ast.FunctionDef):
         return None, None, None, None
     v = _frame.violations(node, _frame.module_imports(tree))
+    if _frame.injects_into_own_frame(node):
+        v = v + [(node.lineno, "binds the plain local name %r although model symbols are exec'd into this frame (a symbol of that name would be shadowed)" % n)
+                 for n in _frame.shadowing_locals(node)]
     name = 'frame/assigns only its locals, its arguments and what hangs off them@%s' % qual
     where = '%s:%d' % (modname, node.lineno)
     if not v:
